@@ -66,6 +66,20 @@ theorem C17_returns_called_class (s : SS) (hs : s.WF cfg) (c a i : Nat)
     subst h
     simp
 
+/-- a construction with a key that is not live whose `__init__` raises registers NOTHING: the
+    exception reaches the caller and the state (maps, instances, `__init__` log) is unchanged, so
+    `check` / `get_all` keep reporting the key as absent and a retry constructs afresh -/
+theorem C17_failed_construction_registers_nothing (s : SS) (c a : Nat) (hl : live cfg s c a = none) :
+    s.step cfg (.constructFail c a) = (s, .raised) := by
+  unfold live at hl
+  simp only [SS.step, hl]
+
+/-- … with a live key the instance is returned and `__init__` does not run (cannot raise) -/
+theorem C17_failing_args_on_live_key (s : SS) (c a i : Nat) (hl : live cfg s c a = some i) :
+    s.step cfg (.constructFail c a) = (s, .inst i) := by
+  unfold live at hl
+  simp only [SS.step, hl]
+
 /-- `check` and `get_all` report exactly the live mappings and create nothing -/
 theorem C17_reports_exact (s : SS) (c a : Nat) :
     (s.step cfg (.check c a)).1 = s ∧
